@@ -36,6 +36,28 @@ def run(ctx):
                 elif ev["k"] == "jmethods": jmethods.update(ev["names"])
             traces.append(out)
     ctx.tlc_traces("Trace_C19", traces)
+    # second binding: the jump-ratio XRF specification (XrlXRFJump, the module that judges the C library under C09) judges the Java
+    # implementation directly, on the elements and energies of the C trace plus Java's own edge energies, bit-exact and one ulp to either
+    # side.  Where C conforms to the module and Java does not, the two differ - also exactly at an edge, where the pairwise rule above
+    # must allow for round-off.
+    b = ctx.build("plain", "A"); exe = ctx.harness(b)
+    facts = ctx.facts(b, ["macros", "names", "scalar", "compton", "kissel"])
+    zs = [6, 20, 26, 29, 40, 47, 64, 79, 82, 92] if ctx.quick else list(range(1, 99))
+    def xrf(i):
+        zz = zs[i::NCPU]
+        if not zz: return None
+        ctrace = os.path.join(ctx.scratch, "xrfc.%02d.ndjson" % i); jtrace = os.path.join(ctx.scratch, "xrfj.%02d.ndjson" % i)
+        with open(ctrace, "w") as f: pass
+        for Z in zz:
+            tmp = ctrace + ".z"; ctx.run_harness(exe, ["c09", Z, Z, "quick"], tmp)
+            with open(ctrace, "a") as f: f.write(open(tmp).read())
+        r2 = subprocess.run(["java", "-Xmx1g", "-XX:ParallelGCThreads=2", "-cp", os.path.join(jdir, "classes"), "JXrf", ctrace, jtrace], cwd=os.path.join(jdir, "classes"), capture_output=True, text=True, timeout=3000)
+        if r2.returncode != 0: raise Broken("JXrf ended abnormally: " + (r2.stderr or "")[-600:])
+        return jtrace
+    r = subprocess.run([os.path.join(VERIF, "bin", "build_java"), b], capture_output=True, text=True, timeout=1200); jdir = r.stdout.strip().splitlines()[-1]
+    with cf.ThreadPoolExecutor(max_workers=NCPU) as ex: jt = [t for t in ex.map(xrf, range(NCPU)) if t]
+    ctx.tlc_traces("Trace_C09", jt, env={"XRL_FACTS": facts, "XRL_PROP": "C19", "XRL_IMPL": "java"}, heap="3g")
+    ctx.samples.append({"second_binding": "XrlXRFJump judged the Java implementation on %d elements" % len(zs)})
     ctx.evaluations = calls
     undriven = sorted(jmethods - fns)
     return verdict(ctx, "model_checking", {
